@@ -280,9 +280,56 @@ def run(tier, seed):
                                 "counts are kept per (file, name): same-named definitions of one file share a counter" if dupkey else hit[0]["summary"])
                         continue
                     fail(f"`fixtures list` prints {lab!r} for {key} but the server reports {want} references {sorted(refs_by_key[key])}")
+    ncli += editable_parent_part(r, base)
     shutil.rmtree(base, ignore_errors=True)
     r.stats["cli_invocations"] = ncli
     return r.finish(RULE)
+
+
+def editable_parent_part(r, base):
+    """(fixed tree, CLI only) the scanned directory is a SUB-directory of the project, which is installed editable in its
+    own virtualenv (`pip install -e .`, VIRTUAL_ENV set): the project's modules outside the scanned directory hold
+    project fixtures - an unrequested one is listed by `fixtures unused` (exit 1), in both formats"""
+    v = r.verdict
+    proj = os.path.join(base, "edit", "proj")
+    sp = os.path.join(proj, ".venv", "lib", "python3.12", "site-packages")
+    fx = "import pytest\n\n@pytest.fixture\ndef used_fx():\n    return 1\n\n@pytest.fixture\ndef lonely_fx():\n    return 2\n"
+    files = {
+        "myproj/__init__.py": "", "myproj/testing/__init__.py": "", "myproj/testing/fixtures.py": fx,
+        "tests/conftest.py": "from myproj.testing.fixtures import *\n",
+        "tests/test_t.py": "def test_t(used_fx):\n    pass\n",
+        ".venv/pyvenv.cfg": "home = /usr/bin\n",
+        ".venv/lib/python3.12/site-packages/myproj-0.1.dist-info/direct_url.json": '{"url": "file://%s", "dir_info": {"editable": true}}' % proj,
+        ".venv/lib/python3.12/site-packages/myproj-0.1.dist-info/METADATA": "Name: myproj\nVersion: 0.1\n",
+        ".venv/lib/python3.12/site-packages/__editable__.myproj-0.1.pth": proj + "\n",
+    }
+    for p, t in files.items():
+        full = os.path.join(proj, p)
+        os.makedirs(os.path.dirname(full), exist_ok=True)
+        with open(full, "w") as f:
+            f.write(t)
+    root = os.path.join(proj, "tests")
+    env = {"VIRTUAL_ENV": os.path.join(proj, ".venv"), "RAYON_NUM_THREADS": "2"}
+    rc_t, out_t, _ = run_cli(["fixtures", "unused", root], env)
+    rc_j, out_j, _ = run_cli(["fixtures", "unused", root, "--format", "json"], env)
+    rc_l, out_l, _ = run_cli(["fixtures", "list", root], env)
+    def fail(msg):
+        v.violation("editable-parent", "editable-parent tree: " + msg,
+                    "# " + msg + "\n# tree (rebuilt by the check): " + proj + "; scanned: tests/; VIRTUAL_ENV=.venv\n"
+                    + "".join("# %s | %s\n" % (p, l) for p, t in files.items() for l in t.split("\n") if l)
+                    + "# --- fixtures unused ---\n" + "".join("# | %s\n" % l for l in out_t.split("\n"))
+                    + "# --- fixtures list ---\n" + "".join("# | %s\n" % l for l in out_l.split("\n")))
+    try:
+        names = sorted(e["fixture"] for e in json.loads(out_j))
+    except Exception as e:
+        fail(f"`fixtures unused --format json` is not valid JSON: {e}"); return 3
+    tnames = sorted(n for (_, n) in parse_unused_text(out_t))
+    if names != ["lonely_fx"] or tnames != names:
+        fail(f"`fixtures unused` lists {tnames} (text) / {names} (JSON); the project fixture nobody requests is lonely_fx "
+             f"(myproj/testing/fixtures.py, imported into tests/conftest.py), used_fx is requested by tests/test_t.py")
+    elif (rc_t, rc_j) != (1, 1):
+        fail(f"exit status {rc_t}/{rc_j} with one unused fixture listed")
+    return 3
 
 
 def parse_list_str(s):
